@@ -783,6 +783,74 @@ def _dispatch(ctx: Ctx, inp, suite=None, **kw):
         raise ValueError(f"unknown case kind {k!r}")
 
 
+import os as _os_dt
+os = _os_dt
+
+
+def _dtensor_job(ctx: Ctx, cfg, idx: int, suite: str = "dtensor_reshard", verbose: bool = False):
+    """DTensor entries (io_preparers/dtensor.py) are not in the Lean model; this suite is an oracle only: real gloo ranks
+    save a DTensor under one placement and restore it under another, including uneven shardings."""
+    import json
+    import shutil
+    import subprocess
+    import sys
+    import time
+    import sim
+    from common import OUT_DIR, REPO
+    W = cfg["W"]
+    root = os.path.join(OUT_DIR, f"c08_dt_{os.getpid()}_{idx}")
+    shutil.rmtree(root, ignore_errors=True)
+    os.makedirs(root)
+    cfg_path = os.path.join(root, "cfg.json")
+    json.dump(cfg, open(cfg_path, "w"))
+    worker = os.path.join(os.path.dirname(os.path.abspath(__file__)), "c08_dtensor_worker.py")
+    procs = [subprocess.Popen([sys.executable, worker, cfg_path, str(r), str(W), os.path.join(root, "init"), root,
+                               os.path.join(root, f"out{r}.json")], env=dict(os.environ, VERIF_REPO=REPO),
+                              stdout=subprocess.PIPE, stderr=subprocess.STDOUT) for r in range(W)]
+    t_end = time.time() + 5 * sim.wait_limit()
+    outs = []
+    for p in procs:
+        try:
+            o, _ = p.communicate(timeout=max(1, t_end - time.time()))
+        except subprocess.TimeoutExpired:
+            p.kill()
+            o, _ = p.communicate()
+        outs.append(o.decode("utf-8", "replace")[-400:])
+    res = []
+    for r in range(W):
+        f = os.path.join(root, f"out{r}.json")
+        res.append(json.load(open(f)) if os.path.exists(f) else None)
+    inp = dict(cfg, kind="dtensor")
+    shutil.rmtree(root, ignore_errors=True)
+    if any(x is None for x in res):
+        ctx.count("dtensor.job_failed")
+        ctx.notes.append(f"dtensor job {idx} did not complete: {outs[0][-200:]}")
+        ctx.case(suite, dict(inp, completed=False), nontrivial=False, key=inp)
+        return
+    for x in res:
+        for pr in x["problems"]:
+            ctx.fail("dtensor-reshard-wrong-values", f"rank {pr['rank']}: DTensor saved with placement dim {pr['pair'][0]} and restored with "
+                     f"{pr['pair'][1]} differs from the saved global tensor", inp, pr, suite=suite)
+            if verbose:
+                print("FAIL", pr)
+    ctx.count("dtensor.jobs")
+    ctx.case(suite, inp, nontrivial=True, key=inp)
+
+
+def _dtensor_suite(ctx: Ctx):
+    rng = ctx.rng
+    jobs = [{"W": 2, "shape": [5, 4], "dtype": "float32", "pairs": [[0, 1], [1, 0]]}]
+    for _ in range(ctx.n(1, 10)):
+        W = rng.choice([2, 2, 3])
+        shape = [rng.randint(1, 9), rng.randint(1, 7)]
+        jobs.append({"W": W, "shape": shape, "dtype": rng.choice(["float32", "int64", "bfloat16"]),
+                     "pairs": [[rng.choice([0, 1]), rng.choice([0, 1, -1])] for _ in range(rng.randint(1, 3))]})
+    for i, cfg in enumerate(jobs):
+        if ctx.time_left() < 20:
+            break
+        _dtensor_job(ctx, cfg, i)
+
+
 def run(ctx: Ctx):
     _setup()
     for inp in CORPUS:
@@ -791,6 +859,7 @@ def run(ctx: Ctx):
     _subdivide_suite(ctx)
     _tshape_suite(ctx)
     _reshard_suite(ctx)
+    _dtensor_suite(ctx)
 
 
 def replay(ctx: Ctx, rec):
@@ -801,6 +870,9 @@ def replay(ctx: Ctx, rec):
             replay(ctx, {"input": d["input"]})
         return
     inp = rec["input"]
+    if isinstance(inp, dict) and inp.get("kind") == "dtensor":
+        _dtensor_job(ctx, {k: v for k, v in inp.items() if k != "kind"}, 0, "replay", verbose=True)
+        return
     print("input:", inp)
     n0 = len(ctx.failures)
     d0 = len(ctx.disagreements)
